@@ -83,6 +83,11 @@ func (propC09) Gen(seed uint64, tier string, idx int) *Plan {
 			ep.Listing = []Phase{{From: Always, Mode: "ok"}, {From: 5 * time.Second, Mode: "ok", Models: newList}}
 		}
 		ep.Default = Resp{Kind: "llm", Status: 200}
+		if r.Chance(150) {
+			// the first proxied exchange on this endpoint dies at connection level: whatever the engine does
+			// next (failover) has to stay inside what model routing decided
+			ep.Seq = []Resp{{Kind: "llm", Status: 200, Fault: &Fault{At: "accept", Kind: "rst"}}}
+		}
 		if !staysHealthy {
 			// healthy at boot (so its listing is registered), then it crashes; the 30 s health tick notices
 			p.Env = append(p.Env, EnvEvent{At: 22 * time.Second, Host: ep.Name, Action: "crash"})
@@ -224,6 +229,12 @@ func (propC09) Check(r *Run) []Violation {
 		if ambiguous {
 			continue
 		}
+		faulted := false
+		for _, e := range exs {
+			if e.FaultFired != "" {
+				faulted = true // an attempt was killed by the simulator: "must be served" is not owed any more
+			}
+		}
 		anyGenerous := len(listsGenerous) > 0
 		exactHealthy := false
 		for n := range listsExact {
@@ -243,7 +254,7 @@ func (propC09) Check(r *Run) []Violation {
 		switch {
 		case exactHealthy:
 			// must be served by a healthy endpoint that lists it
-			if len(exs) == 0 || c.Status < 200 || c.Status >= 300 {
+			if (len(exs) == 0 || c.Status < 200 || c.Status >= 300) && !faulted {
 				add("C09/listed-healthy-model-not-served"+caseNote, "%s", ctx)
 			}
 			if dec != "" && dec != "routed" {
@@ -258,7 +269,7 @@ func (propC09) Check(r *Run) []Violation {
 				if dec != "" && dec != "rejected" {
 					add("C09/decision-header-disagrees", "%s; header says %q for a rejected request", ctx, dec)
 				}
-			} else {
+			} else if !faulted {
 				c09Fallback(&out, r, c, ctx, route, healthy, exs, dec)
 			}
 		case len(listsExact) > 0 && !exactHealthy:
@@ -270,7 +281,7 @@ func (propC09) Check(r *Run) []Violation {
 				if dec != "" && dec != "rejected" {
 					add("C09/decision-header-disagrees", "%s; header says %q for a rejected request", ctx, dec)
 				}
-			} else {
+			} else if !faulted {
 				c09Fallback(&out, r, c, ctx, route, healthy, exs, dec)
 			}
 		}
